@@ -475,6 +475,9 @@ func (pool *TxPool) SetGasPrice(price *big.Int) {
 	for _, tx := range pool.priced.Cap(price, pool.locals) {
 		pool.removeTx(tx.Hash())
 	}
+	// Removing a pending transaction moves its successors back into the queue
+	// without looking at the queue limits: re-establish them.
+	pool.promoteExecutables(nil)
 	log.Info("Transaction pool price threshold updated", "price", price)
 }
 
